@@ -85,6 +85,9 @@ pub fn heads(full: bool) -> Vec<(&'static str, Vec<&'static str>)> {
         v.push(("g", vec!["a"]));
         v.push(("f", vec!["a", "x"]));
     }
+    // a parameter name written twice (which one a use denotes is not defined; the program must
+    // not crash)
+    v.push(("f", vec!["x", "x"]));
     v
 }
 
@@ -276,8 +279,15 @@ pub fn judge(p: &Program) -> Outcome {
         }
         Ok(mods) => {
             if reso.unspecified.is_some() {
-                // Only "does not crash" is required; still run the back end.
-                let _ = guard(|| pipeline::emit(&mods));
+                // Only "does not crash" is required: run the back end and say so if it does.
+                if let Err(pi) = guard(|| pipeline::emit(&mods)) {
+                    return Outcome::bad(
+                        "crash",
+                        format!("panic {} | accepted program with a collision the language leaves open", panic_site(&pi)),
+                        format!("accepted, then panic at {}: {}", pi.location, pi.message.chars().take(160).collect::<String>()),
+                        case(),
+                    );
+                }
                 return Outcome::ok("unspecified collision: accepted", None);
             }
             if name_error {
